@@ -11,3 +11,12 @@ chk("C18","model_checking",
  "For every non-functional property all operation sequences up to depth 4 (thorough 5) over {Append,Prepend,Insert,Set,Remove,Swap} x all valid indices x 2 IRI values, and to depth 3 (4) with a mixed-kind alphabet, are applied to the real container (rebuilt by replay for every sequence) and after every step the whole observation (Len, Empty, At, forward and backward iteration, Serialize, reported kinds) is compared with a plain slice; every functional property: all Set*/Clear sequences up to length 4.",
  "Trusted: the slice reference model; element observations are taken from fresh single-element containers (container logic, not per-kind serialisation, is judged).",
  "explicit enumeration of all operation sequences to a depth bound against a reference model","DESIGN.md 3 C18","onto")
+
+chk("C01","exploration",
+ "About 150,000 documents derived from the ontology grammar (every (type, property, kind) x shape, nesting to depth 3, unknown members of 10 kinds under 3 key spellings, 22 accepted-but-non-canonical shapes) are decoded and re-encoded by the real code; canonical documents must come back JSON-equal with an @context set equal to the vocabularies an independent oracle computes; every accepted document must lose no member and be stable under a second round trip.",
+ "Trusted: the ontology oracle and the canonical sample table; vocabulary URIs compared after URL normalisation.",
+ "bounded-exhaustive enumeration of a document grammar against JSON equality and an independent context oracle","DESIGN.md 3 C01","onto")
+chk("C14","exploration",
+ "All 63 x 63 (value type, callback type) pairs for the three resolvers, all callback lists up to length 3 (thorough 4) over a 7-element per-type alphabet, all 'type' arrays up to length 3 over 5 names x 6 callback sets, predicate outcomes and 13 wrong constructor shapes are executed with callbacks manufactured by reflect.MakeFunc; oracle: exactly the first own-type callback runs and its error comes back by identity, otherwise nothing runs and IsUnmatchedErr holds.",
+ "Trusted: reflect.MakeFunc callbacks are matched by the resolvers' type switches exactly like hand-written functions (checked). For multi-valued type the own type is the first known entry (ToType must agree).",
+ "bounded-exhaustive enumeration of (value, callback list) combinations against a first-match oracle","DESIGN.md 3 C14","onto")
